@@ -52,6 +52,14 @@ CORPUS = [
       (False, [], ["r0"]), (False, [], None), (False, [], ["r0"])], {"r0": 1}),
     ([(False, [dict(callee=1), dict(callee=1), dict(callee=1, limits={"r0": 2})], None), (False, [], ["r0", "r1"])], {"r0": 2}),
     ([(False, [dict(callee=1, executor="nope"), dict(callee=1)], None), (False, [], ["r0"])], {"r0": 1}),
+    # different amounts of one resource: a job holding everything, a small and a big job waiting in either order
+    ([(False, [dict(callee=1), dict(callee=2), dict(callee=3)], None), (False, [], {"r0": 2}), (False, [], {"r0": 1}), (False, [], {"r0": 2})],
+     {"r0": 2}),
+    ([(False, [dict(callee=1), dict(callee=3), dict(callee=2), dict(callee=2, scope="NONE")], None), (False, [], {"r0": 3}), (False, [], {"r0": 1}),
+      (False, [], {"r0": 2})], {"r0": 3}),
+    # limited duplicates: twins collapse / are served by CSE while the resource is contended
+    ([(False, [dict(callee=1), dict(callee=1), dict(callee=2), dict(callee=1)], None), (False, [], ["r0"]), (False, [dict(callee=1)], ["r0"])],
+     {"r0": 1}),
 ]
 
 
@@ -75,6 +83,16 @@ def oracle_hook(ctx, p, viol):
             if used < held:
                 viol.append(("C08-used-below-held", "limits_used is smaller than the units held by in-flight jobs (under-count)",
                              dict(resource=name, used=used, held=held)))
+        # "jobs served from the cache or by deduplication hold no units" (the scheduler's own flag for a job that holds units)
+        for j in ctl.all_jobs:
+            if getattr(j, "holds_limits", False) and j.get_limits():
+                collapsed = bool(getattr(j, "_verif_collapsed", False))
+                if j.was_cached or collapsed:
+                    viol.append(("C08-cached-or-deduplicated-job-holds-units",
+                                 "a job served from the cache or collapsed into a twin holds resource units",
+                                 dict(job=ctl.remember(j), cached=bool(j.was_cached), collapsed=collapsed, limits=dict(j.get_limits()),
+                                      limits_used=dict(s.limits_used))))
+                    break
     return after
 
 
